@@ -235,6 +235,26 @@ def triggs_zero(env):
     env.safe('finite', R2, J2)
 
 
+def exact_scalar_jacobian_external(env):
+    """model of torch.autograd.functional.jacobian(func, x) for a scalar-valued func: evaluate func on fresh symbols, differentiate
+    exactly, substitute x back (the contract of the external: it returns d func / d x at x)"""
+    from pvc import storch as st, algebra as A, atoms as AT
+    import numpy as np
+    def jac(func, x, **k):
+        xa = st._T(x)._a
+        zs = np.empty(xa.shape, dtype=object); vids = {}
+        for i in np.ndindex(xa.shape):
+            z = A.CTX.sym(f'_jz{len(A.CTX.kind)}', aux=True); zs[i] = z
+            (m, cc), = z.num.t.items(); vids[i] = m[0][0]
+            A.CTX.add_fact(z >= 0)            # kernels are evaluated at squared norms
+        y = st._T(func(st._mk(zs, 'f')))._a.reshape(-1)[0]
+        back = {vids[i]: A.Frac.of(xa[i]) for i in vids}
+        out = np.empty(xa.shape, dtype=object)
+        for i in np.ndindex(xa.shape): out[i] = AT.diff(A.Frac.of(y), vids[i]).subs(back)
+        return st._mk(out, 'f')
+    st.set_external('autograd.functional.jacobian', jac)
+
+
 @obligation('C09.selection', functions=['pypose.optim.optimizer:RobustModel.loss', 'pypose.optim.optimizer:GaussNewton.__init__',
                                         'pypose.optim.optimizer:LevenbergMarquardt.__init__'], max_paths=16)
 def selection(env):
@@ -244,8 +264,10 @@ def selection(env):
     nn = env.T.nn
     r1 = sym_matrix(env, 'r', 2, 2); r2 = sym_matrix(env, 's', 1, 2)
     class M(nn.Module):
+        def __init__(self): super().__init__(); self.w = nn.Parameter(T.zeros(1))       # torch optimizers refuse an empty parameter list
         def forward(self, inp): return r1, r2
     class M1(nn.Module):
+        def __init__(self): super().__init__(); self.w = nn.Parameter(T.zeros(1))
         def forward(self, inp): return r1
     k1, k2 = ker.Scale(Q(1, 2) if env.sym else 0.5), ker.Scale(Q(1, 4) if env.sym else 0.25)
     rm = optm.RobustModel(M(), [k1, k2])
@@ -258,8 +280,14 @@ def selection(env):
     env.eq('no_kernel_is_plain_sum_of_squares', rm0.loss(None, None), x1.sum())
     for cls in (optm.GaussNewton, optm.LevenbergMarquardt):
         o = cls(M(), kernel=[k1, None])
-        env.holds(f'{cls.__name__}_default_corrector_is_FastTriggs_per_kernel',
-                  len(o.corrector) == 2 and all(isinstance(c, cor.FastTriggs) for c in o.corrector))
+        # behavioural, not structural: whatever object is selected must act on (R, J) exactly as FastTriggs(kernel_k) does
+        env.holds(f'{cls.__name__}_one_default_corrector_per_kernel', len(o.corrector) == 2)
+        if env.sym: exact_scalar_jacobian_external(env)
+        for k_, kern in enumerate((k1, optm.Trivial())):
+            Rk = sym_matrix(env, f'R{cls.__name__}{k_}_', 2, 2); Jk = sym_matrix(env, f'J{cls.__name__}{k_}_', 4, 2)
+            got = o.corrector[k_](R=Rk, J=Jk); ref = cor.FastTriggs(kern)(R=Rk, J=Jk)
+            env.eq(f'{cls.__name__}_default_corrector_{k_}_acts_as_FastTriggs_of_its_kernel: R', got[0], ref[0])
+            env.eq(f'{cls.__name__}_default_corrector_{k_}_acts_as_FastTriggs_of_its_kernel: J', got[1], ref[1])
         env.holds(f'{cls.__name__}_None_kernel_is_Trivial', isinstance(o.model.kernel[1], optm.Trivial))
         o2 = cls(M(), kernel=k1, corrector=cor.Triggs(k1))
         env.holds(f'{cls.__name__}_explicit_corrector_kept', len(o2.corrector) == 1 and isinstance(o2.corrector[0], cor.Triggs))
